@@ -1,0 +1,24 @@
+//go:build verif
+
+package providers
+
+// Contracts for gvc (see /verif/DESIGN.md). Comment-only: this file adds no code to any build.
+
+// Injectivity of handed-out serials: a data-structure invariant preserved by GetIdForKey.
+//@ spec serialsInv(p *SyncedProvider) bool = forall(a, graphs.SymbolKey, implies(indom(p.keyToImportId, a), p.keyToImportId[a] < p.nextImportId)) && forall(a, graphs.SymbolKey, forall(b, graphs.SymbolKey, implies(indom(p.keyToImportId, a) && indom(p.keyToImportId, b) && a != b, p.keyToImportId[a] != p.keyToImportId[b])))
+
+//@ func SyncedProvider.GetIdForKey props C19,C13,C09,C14
+//@ requires p != nil && p.keyToImportId != nil
+//@ requires serialsInv(p)
+//@ modifies p.nextImportId, elems(p.keyToImportId)
+//@ ensures memo: implies(old(indom(p.keyToImportId, key)), result == old(p.keyToImportId[key]) && p.nextImportId == old(p.nextImportId))
+//@ ensures fresh: implies(!old(indom(p.keyToImportId, key)), result == old(p.nextImportId) && p.nextImportId == old(p.nextImportId)+1)
+//@ ensures inv: serialsInv(p)
+//@ ensures stored: indom(p.keyToImportId, key) && p.keyToImportId[key] == result
+//@ ensures others: forall(k, graphs.SymbolKey, implies(k != key, indom(p.keyToImportId, k) == old(indom(p.keyToImportId, k)) && p.keyToImportId[k] == old(p.keyToImportId[k])))
+
+//@ func SyncedProvider.GetNextImportId props C19,C14
+//@ requires p != nil
+//@ modifies p.nextImportId
+//@ ensures result == old(p.nextImportId) && p.nextImportId == old(p.nextImportId)+1
+
